@@ -466,6 +466,10 @@ def search(ctx):
                 rest = [x for j, x in enumerate(nodes) if j != victim]
                 fixed.append((vpc, [], [("adv", nodes), ("refuse", nodes[victim]), ("traffic",), ("adv", rest), ("accept", nodes[victim]), ("tick", 61), ("traffic",),
                                         ("tick", 200), ("traffic",), ("adv", rest)]))
+    # two nodes at ONE address (same host name and IP), on different ports: both are advertised, both are in the rotation
+    twin = (UNIVERSE[0][0], UNIVERSE[0][1], "11299")
+    for vpc in (True, False):
+        fixed.append((vpc, [], [("adv", [UNIVERSE[0], twin, UNIVERSE[1]]), ("traffic",), ("adv", [twin, UNIVERSE[1]]), ("adv", [UNIVERSE[0], twin]), ("traffic",)]))
     # use_vpc is documented as a bool; 1 and 0 are the same values to Python (other objects are outside its domain: the code indexes with int(use_vpc))
     for vpc in (1, 0, "omit"):
         fixed.append((vpc, [], [("adv", UNIVERSE[:3]), ("adv", UNIVERSE[1:4]), ("traffic",)]))
